@@ -28,7 +28,7 @@ def choiceStage (cfg : RunCfg) (e : Experiment) (env : Env) (pop : List PyVal) (
       | .random cum => pure (.random pop cum)
       | .idx _ => throw (.other "unreachable")
   | lv => do
-      let key ← keyOf (e.salt.getD "") lv env
+      let key ← keyOf cfg.printable (e.salt.getD "") lv env
       Outcome.group <$> chooseByKey cfg.keyUtf8 key pop ws
 
 /-- the reference meaning of calling the generated function on keyword arguments `env` -/
